@@ -126,3 +126,17 @@ def purity_rule(prog, rep, short, params, rule="PURE", module=None, allow=None):
     for u in an.unknown_methods_on_tracked:
         rep.undecided(rule, fi.short, f"call {u[1]}", f"unknown method on a tracked object {u[2]}", u[0])
     return fi, an
+
+
+def copy_protocol(prog, rep, rule="COPY-PROTOCOL"):
+    """the ownership argument trusts copy.deepcopy to return a disjoint graph: no class of the packages may override it"""
+    rep.rule(rule, "no class of the packages defines __deepcopy__ / __copy__ / __reduce__ / __reduce_ex__ / __getstate__ / __setstate__: copy.deepcopy of an Event (what the memory store and the transforms rely on to separate their copy from the caller's) then copies every nested object")
+    bad = []
+    for ci in prog.classes.values():
+        for m in ("__deepcopy__", "__copy__", "__reduce__", "__reduce_ex__", "__getstate__", "__setstate__"):
+            if m in ci.methods:
+                bad.append((ci, m))
+    for ci, m in bad:
+        rep.violation(rule, ci.name, f"{ci.name}.{m}", f"{ci.name} overrides {m}: copy.deepcopy no longer guarantees a disjoint object graph (a shallow data copy shares nested lists / dicts between the stored event and the one handed out, so editing a result of a read or a query edits the store)", ci.methods[m].loc())
+    if not bad:
+        rep.ok(rule, "all classes", "copy protocol", f"{len(prog.classes)} classes, none overrides it", None)
